@@ -15,6 +15,8 @@ tree violates are stated in full in comments, refuted in Witness.lean (`…_full
 proved here under an explicit decidable exclusion (`…_partial`).
 -/
 import CaddyModel.C08.Lemmas
+import CaddyModel.C08.Keys
+import CaddyModel.C10.Lemmas
 import CaddyModel.C08.Witness
 
 namespace CaddyModel.C08
@@ -594,6 +596,80 @@ theorem proxy_retry_rule (left : Nat) (e : PErr) (get : Bool) :
     tryAgain left e get = (decide (0 < left) && (e ≠ .other || get)) := by
   cases e <;> simp [tryAgain]
 
+/-! ## what the hash / header / query / cookie policies take from the request
+
+`hashKey` is the string handed to `hostByHashing` (or `none`: the fallback decides); two requests
+with the same key get the same hash column, hence (`hash_sticky`) the same upstream. -/
+
+/-- **each policy reads only its own source**: ip_hash only `RemoteAddr`, client_ip_hash only the
+    client address C10 determined (the `client_ip` var — never `RemoteAddr` or a forwarding header),
+    uri_hash only the request URI, header only `req.Host` and the header map, query only the parsed
+    query -/
+theorem hashKey_reads_only_its_source (r r' : KReq) :
+    (r.remoteAddr = r'.remoteAddr → hashKey .ipHash r = hashKey .ipHash r') ∧
+    (r.clientIP = r'.clientIP → hashKey .clientIpHash r = hashKey .clientIpHash r') ∧
+    (r.uri = r'.uri → hashKey .uriHash r = hashKey .uriHash r') ∧
+    (∀ f, r.host = r'.host → r.header = r'.header → hashKey (.header f) r = hashKey (.header f) r') ∧
+    (∀ k, r.query = r'.query → hashKey (.query k) r = hashKey (.query k) r') := by
+  refine ⟨?_, ?_, ?_, ?_, ?_⟩
+  · intro h; simp [hashKey, h]
+  · intro h; simp [hashKey, h]
+  · intro h; simp [hashKey, h]
+  · intro f h1 h2; simp [hashKey, h1, h2]
+  · intro k h; simp [hashKey, h]
+
+/-- **the same client on another port has the same key**: when `net.SplitHostPort` accepts both
+    addresses, the key of ip_hash (client_ip_hash) is the host part — the port takes no part -/
+theorem ipHash_key_ignores_port (r r' : KReq) (h p p' : Bytes)
+    (h1 : C10.splitHostPort r.remoteAddr = some (h, p)) (h2 : C10.splitHostPort r'.remoteAddr = some (h, p')) :
+    hashKey .ipHash r = some h ∧ hashKey .ipHash r' = some h := by
+  simp [hashKey, hostOnly, h1, h2]
+
+theorem clientIpHash_key_ignores_port (r r' : KReq) (h p p' : Bytes)
+    (h1 : C10.splitHostPort r.clientIP = some (h, p)) (h2 : C10.splitHostPort r'.clientIP = some (h, p')) :
+    hashKey .clientIpHash r = some h ∧ hashKey .clientIpHash r' = some h := by
+  simp [hashKey, hostOnly, h1, h2]
+
+/-- an address `net.SplitHostPort` rejects (no port, bare IPv6, unix socket …) is the key as a whole -/
+theorem ipHash_key_whole_if_unsplittable (r : KReq) (h : C10.splitHostPort r.remoteAddr = none) :
+    hashKey .ipHash r = some r.remoteAddr := by
+  simp [hashKey, hostOnly, h]
+
+/-- **header policy**: field `Host` (spelled exactly so) means `req.Host` when that is not empty;
+    otherwise the key is the first value, on the wire, of the fields whose canonical name is the
+    canonical name of the configured field; no such field, or an empty first value: the fallback decides -/
+theorem header_key (field host uri remote cip : Bytes) (w : List (Bytes × Bytes)) (q ck : List (Bytes × Bytes)) :
+    hashKey (.header field) ⟨remote, cip, uri, host, C10.fromWire w, q, ck⟩ =
+      if field = hostField ∧ host ≠ [] then some host
+      else match C10.wireValues w (C10.canonKey field) with
+        | [] => none
+        | v :: _ => if v = [] then none else some v := by
+  simp only [hashKey, headerGet, C10.hValues_fromWire]
+  split
+  · rfl
+  · cases C10.wireValues w (C10.canonKey field) with
+    | nil => simp
+    | cons v vs => simp
+
+/-- **query policy**: the key is all values of the parameter, in URL order, joined by commas (so a
+    client cannot steer the choice by adding a value the upstream would ignore); no value, or only
+    empty ones joined to "": the fallback decides -/
+theorem query_key (key : Bytes) (r : KReq) :
+    hashKey (.query key) r =
+      if C10.joinWith [44] ((r.query.filter (fun kv => kv.1 = key)).map (·.2)) = [] then none
+      else some (C10.joinWith [44] ((r.query.filter (fun kv => kv.1 = key)).map (·.2))) := rfl
+
+/-- **cookie policy**: the first cookie with the configured name counts, later ones are ignored -/
+theorem cookie_first_cookie_wins (name v : Bytes) (pre rest : List (Bytes × Bytes))
+    (h : ∀ c ∈ pre, c.1 ≠ name) : cookieValue name (pre ++ (name, v) :: rest) = some v := by
+  induction pre with
+  | nil => simp [cookieValue]
+  | cons c pre ih =>
+    obtain ⟨n, x⟩ := c
+    have hn : n ≠ name := h (n, x) (List.mem_cons_self ..)
+    simp only [List.cons_append, cookieValue, if_neg hn]
+    exact ih (fun c hc => h c (List.mem_cons_of_mem _ hc))
+
 /-! ## the draw list: random and least_conn use at most one draw per upstream -/
 
 /-- the model never runs out of draws when given one draw per upstream -/
@@ -724,5 +800,19 @@ example : (prun { exCfg with dyn := true } (pinit .first { exCfg with dyn := tru
 -- proxy_refuses_only_when_nothing_available: hypotheses inhabited
 example : liveOK (mkPool exCfg exCfg.ups [0, 1, 2] [1, 0, 0]) .first = true ∧
     (attempt exCfg false true exCfg.retries .none ⟨.first, [0, 1, 2], [1, 0, 0], [some 1, some 2, some 2], []⟩).2.1 = .status 503 := by decide
+
+-- keys: "10.0.0.5:1234" and "10.0.0.5:80" → "10.0.0.5"; "[fd00::1]:443" → "fd00::1"; "fd00::1" (no port) stays whole
+example : C10.splitHostPort (str "10.0.0.5:1234") = some (str "10.0.0.5", str "1234") ∧
+    C10.splitHostPort (str "10.0.0.5:80") = some (str "10.0.0.5", str "80") ∧
+    C10.splitHostPort (str "[fd00::1]:443") = some (str "fd00::1", str "443") ∧
+    C10.splitHostPort (str "fd00::1") = none := by decide
+def exReq : KReq := ⟨str "10.0.0.5:1234", str "192.168.1.9", str "/a?k=1&k=2&z=3", str "example.com",
+  C10.fromWire [(str "x-key", str "v1"), (str "X-Other", str "o"), (str "X-KEY", str "v2")],
+  [(str "k", str "1"), (str "k", str "2"), (str "z", str "3")], [(str "sid", str "x1"), (str "lb", str "t3"), (str "lb", str "t5")]⟩
+example : hashKey .ipHash exReq = some (str "10.0.0.5") ∧ hashKey .clientIpHash exReq = some (str "192.168.1.9") ∧
+    hashKey (.header (str "X-Key")) exReq = some (str "v1") ∧ hashKey (.header (str "Host")) exReq = some (str "example.com") ∧
+    hashKey (.header (str "host")) exReq = none ∧ hashKey (.header (str "X-None")) exReq = none ∧
+    hashKey (.query (str "k")) exReq = some (str "1,2") ∧ hashKey (.query (str "q")) exReq = none ∧
+    cookieValue (str "lb") exReq.cookies = some (str "t3") := by decide
 
 end CaddyModel.C08
